@@ -86,7 +86,10 @@ def jsonable(obj):
         if isinstance(obj, np.ndarray):
             return jsonable(obj.tolist())
         if isinstance(obj, np.generic):
-            return jsonable(obj.item())
+            item = obj.item()
+            if isinstance(item, np.generic):  # e.g. numpy.longdouble: .item() returns the scalar itself
+                item = float(item) if np.issubdtype(type(item), np.floating) else str(item)
+            return jsonable(item)
     if isinstance(obj, float):
         if obj != obj:
             return "nan"
